@@ -21,6 +21,8 @@ for mp in sorted(glob.glob("/verif/seeded/*/meta.json")):
     res = ", ".join(parts) if parts else "**not caught**"
     if missed and parts:
         res += " (not by " + ", ".join(missed) + ")"
+    if m.get("note"):
+        res += "; " + m["note"]
     rows.append((sid, m.get("needs_to_manifest", ""), res, ""))
 
 print("| change | what it needs to manifest | caught by (first tier that reports it) |")
